@@ -56,6 +56,9 @@ def main():
             sh('git -C /repo worktree remove --force %s' % wt)
         return 2
     results = {}
+    evbak = '/root/scratch/evidence_backup_%s' % a.id
+    shutil.rmtree(evbak, ignore_errors=True)
+    shutil.copytree(os.path.join(VERIF, 'evidence'), evbak)
     try:
         for p in props:
             t0 = time.time()
@@ -88,8 +91,10 @@ def main():
         else:
             sh('git -C /repo worktree remove --force %s' % wt)
             shutil.rmtree(wt, ignore_errors=True)
-        # evidence must come from the clean tree
-        sh('git -C %s checkout -- evidence' % VERIF)
+        # evidence must come from the clean tree: put back what was there before
+        for f in os.listdir(evbak):
+            shutil.copy2(os.path.join(evbak, f), os.path.join(VERIF, 'evidence', f))
+        shutil.rmtree(evbak, ignore_errors=True)
     out = {'tier': a.tier, 'mode': 'in-repo' if a.in_repo else 'worktree+VERIF_REPO', 'results': results,
            'detected_by': sorted(p for p, v in results.items() if v['detected'])}
     json.dump(out, open(os.path.join(d, 'result.json'), 'w'), indent=1)
